@@ -712,6 +712,34 @@ func c18Generate(r *Run) {
 		}
 		add(g.bulkCase(n))
 	}
+	// long streams: more elements for one graph than any internal slice of a bulk load (kvgraph
+	// commits a stream in one storage transaction; 10 000 is the block size its drivers use elsewhere)
+	longs := []int{10003}
+	if r.Tier == "thorough" {
+		longs = append(longs, 20002)
+	}
+	for _, n := range longs {
+		c := []map[string]interface{}{{"op": "reset", "graphs": c18Strs("g1", "g2")}}
+		for i := 0; i < n; i++ {
+			switch {
+			case i%2500 == 7:
+				c = append(c, map[string]interface{}{"op": "send", "g": "g1", "e": c03E(fmt.Sprintf("x%05d", i), "L", "a", fmt.Sprintf("w%05d", i-1), nil)})
+			case i%2500 == 9:
+				c = append(c, map[string]interface{}{"op": "send", "g": "g1", "v": c03V([]string{"a", "b"}[i/2500%2], "L", nil)})
+			default:
+				c = append(c, map[string]interface{}{"op": "send", "g": "g1", "v": c03V(fmt.Sprintf("w%05d", i), []string{"L", "M"}[i%2], nil)})
+			}
+		}
+		cl := map[string]interface{}{"op": "close"}
+		for k, v := range c18Observe {
+			cl[k] = v
+		}
+		c = append(c, cl)
+		ops = append(ops, c...)
+		ncase++
+		r.Count(fmt.Sprintf("case:long-stream-%d", n))
+		r.NonTrivial(fmt.Sprintf("long-stream-%d", n))
+	}
 	r.Dist["bulk_cases"] = ncase
 	ks := []int{0, 1, 2, 3, 49, 50, 51, 99, 100, 101}
 	for _, k := range ks {
